@@ -1,5 +1,6 @@
 import PharmpyModel.C04.Theta
 import PharmpyModel.C04.OmegaDiag
+import PharmpyModel.C04.ThetaShape
 /-
   Helper lemmas for C04: how the helpers of theta_record.py act on a list of
   children that starts with "filler" nodes (blanks, comments, commas), and on
@@ -280,23 +281,6 @@ namespace Pharmpy.C04
   recogniser `grammarOK` against lark); the intermediate trees of `update`
   (bounds without parentheses) have it too.
 -/
-
-def optL (o : Option TNode) : List TNode := match o with | some x => [x] | none => []
-def lowL (o : Option (TNode × List TNode)) : List TNode := match o with | some (lo, F1) => lo :: F1 | none => []
-def upL (o : Option (List TNode × TNode)) : List TNode := match o with | some (F2, u) => F2 ++ [u] | none => []
-
-structure Shp where
-  lp : Option TNode
-  F0 : List TNode
-  low : Option (TNode × List TNode)
-  ini : TNode
-  up : Option (List TNode × TNode)
-  F3 : List TNode
-  rp : Option TNode
-  tail : List TNode
-
-def Shp.build (s : Shp) : List TNode :=
-  optL s.lp ++ (s.F0 ++ (lowL s.low ++ s.ini :: (upL s.up ++ (s.F3 ++ (optL s.rp ++ s.tail)))))
 
 structure Shp.WF (s : Shp) : Prop where
   ini : s.ini.k = .init
@@ -771,17 +755,6 @@ theorem Shp.updItem_parse (s : Shp) (h : s.WF) (hin : s.Input) (p : Param) :
   obtain ⟨s4, e4, h4, hi4, hu4, hl4, ht4⟩ := Shp.setLower_step s3 h3 hin3 (multiple s2.build) p
   rw [e4, Shp.parse_build s4 h4, hl4, hu4, hu3, ht4, ht3, hf2, hi4, hi3, hi2, hv1]
 
-/-- the parameters NM-TRAN can express and pharmpy's reader accepts -/
-def ParamOK (p : Param) : Bool :=
-  (match p.init with | .fin _ _ => true | _ => false) &&
-  (minLower.lt p.lower || p.lower == .ninf) &&
-  (p.upper.lt maxUpper || p.upper == .pinf) &&
-  !(p.init == maxUpper) && !(p.init == minLower) &&
-  !(!p.fix && !needUpper p && p.lower == p.init) &&
-  !(!p.fix && p.init == zero) &&
-  !(!p.fix && p.lower == p.upper && p.upper == p.init) &&
-  !(p.init.lt p.lower) && !(p.upper.lt p.init)
-
 theorem Val.lt_irrefl (v : Val) : v.lt v = false := by
   cases v <;> simp [Val.lt]
 
@@ -854,7 +827,6 @@ theorem Shp.updItem_multiple (s : Shp) (h : s.WF) (hin : s.Input) (p : Param) :
 /-- `ItemShape cs`: the children list is one of the layouts of `Shp` (no FIX inside the parentheses) -/
 def ItemShape (cs : List TNode) : Prop := ∃ s : Shp, s.WF ∧ s.Input ∧ cs = s.build
 
-def Param.toParsed (p : Param) : Parsed := { init := p.init, lower := p.lower, upper := p.upper, fix := p.fix }
 
 theorem updItem_reads_back (cs : List TNode) (hs : ItemShape cs) (p : Param) (hp : ParamOK p = true) :
     parseItem (updItem cs p) = .ok p.toParsed ∧ multiple (updItem cs p) = multiple cs := by
@@ -867,17 +839,6 @@ theorem updItem_reads_back (cs : List TNode) (hs : ItemShape cs) (p : Param) (hp
 
 /-- every `theta` subtree of the record has a layout of `Shp` -/
 def RecShape (r : List RNode) : Prop := ∀ cs, RNode.item cs ∈ r → ItemShape cs
-
-/-- `NoRepeatSplit`: the parameter list has exactly `len(record)` entries and each `(v)xn` item
-    receives n identical parameters (decidable). -/
-def noRepeatSplit : List RNode → List Param → Bool
-  | [], ps => ps.isEmpty
-  | .tok _ :: r, ps => noRepeatSplit r ps
-  | .item cs :: r, ps =>
-    match ps with
-    | [] => false
-    | p :: _ => (ps.take (multiple cs) == List.replicate (multiple cs) p) && noRepeatSplit r (ps.drop (multiple cs))
-
 
 /-- everything that is not a `theta` subtree (blanks, comments, newlines, options) is kept, in place -/
 def nonItems : List RNode → List TNode
@@ -1145,5 +1106,164 @@ theorem removeDiagAux_parse (inds : List Nat) (i : Nat) (keep : Bool) (r : List 
 def nSd : TNode := { k := .sd, rule := "SD", text := "SD" }
 def nNewline : TNode := { k := .other, rule := "NEWLINE", text := "\n" }
 def oP (n : Int) (d : Nat) (s : String) (fix : Bool) : OParam := { raw := .fin n d, rawS := s, fix := fix }
+
+
+/-! ### the decidable recogniser is sound -/
+
+theorem mem_takeWhile_sat {p : TNode → Bool} {l : List TNode} {x : TNode} (h : x ∈ l.takeWhile p) : p x = true := by
+  induction l with
+  | nil => simp at h
+  | cons y ys ih =>
+    by_cases hy : p y = true
+    · simp [List.takeWhile, hy] at h
+      rcases h with rfl | h
+      · exact hy
+      · exact ih h
+    · simp [List.takeWhile, hy] at h
+
+theorem fillers_takeWhile (l : List TNode) : Fillers (l.takeWhile isFiller) := by
+  intro x hx
+  have := mem_takeWhile_sat hx
+  simpa [isFiller, or_assoc] using this
+
+theorem tailNodes_of_all {T : List TNode} (h : T.all isTailNode = true) : TailNodes T := by
+  intro x hx
+  have := List.all_eq_true.mp h x hx
+  simpa [isTailNode, or_assoc] using this
+
+theorem split_fillers (l : List TNode) : l = l.takeWhile isFiller ++ l.dropWhile isFiller :=
+  (List.takeWhile_append_dropWhile).symm
+
+theorem afterInit_sound (lp : TNode) (hlp : lp.k = .lpar) (F0 : List TNode) (h0 : Fillers F0)
+    (low : Option (TNode × List TNode)) (hlow : ∀ lo F1, low = some (lo, F1) → lo.k = .low ∧ Fillers F1)
+    (i : TNode) (hi : i.k = .init) (r4 : List TNode) (s : Shp) (h : afterInit lp F0 low i r4 = some s) :
+    s.WF ∧ s.Input ∧ lp :: (F0 ++ (lowL low ++ i :: r4)) = s.build := by
+  unfold afterInit at h
+  have e4 := split_fillers r4
+  cases hd : r4.dropWhile isFiller with
+  | nil => simp [hd] at h
+  | cons z r5 =>
+    simp only [hd] at h
+    by_cases hz : z.k = .up
+    · simp only [hz, ↓reduceIte] at h
+      have e5 := split_fillers r5
+      cases hd5 : r5.dropWhile isFiller with
+      | nil => simp [hd5] at h
+      | cons rp T =>
+        simp only [hd5] at h
+        by_cases hc : rp.k = .rpar ∧ T.all isTailNode = true
+        · rw [if_pos hc] at h
+          simp only [Option.some.injEq] at h
+          subst h
+          refine ⟨⟨hi, ?_, ?_, rfl, h0, fillers_takeWhile r5, hlow, ?_, tailNodes_of_all hc.2⟩, ?_, ?_⟩
+          · intro x hx; simp at hx; subst hx; exact hlp
+          · intro x hx; simp at hx; subst hx; exact hc.1
+          · intro F2 u hu; simp at hu; obtain ⟨rfl, rfl⟩ := hu; exact ⟨hz, fillers_takeWhile r4⟩
+          · intro hn; simp at hn
+          · rw [hd] at e4; rw [hd5] at e5
+            simp only [Shp.build, optL, upL]
+            conv => lhs; rw [e4, e5]
+            simp
+        · rw [if_neg hc] at h
+          simp at h
+    · simp only [hz, ↓reduceIte] at h
+      by_cases hc : z.k = .rpar ∧ r5.all isTailNode = true
+      · rw [if_pos hc] at h
+        simp only [Option.some.injEq] at h
+        subst h
+        refine ⟨⟨hi, ?_, ?_, rfl, h0, fillers_takeWhile r4, hlow, ?_, tailNodes_of_all hc.2⟩, ?_, ?_⟩
+        · intro x hx; simp at hx; subst hx; exact hlp
+        · intro x hx; simp at hx; subst hx; exact hc.1
+        · intro F2 u hu; simp at hu
+        · intro hn; simp at hn
+        · rw [hd] at e4
+          simp only [Shp.build, optL, upL]
+          conv => lhs; rw [e4]
+          simp
+      · rw [if_neg hc] at h
+        simp at h
+
+theorem toShp?_sound (cs : List TNode) (s : Shp) (h : toShp? cs = some s) :
+    s.WF ∧ s.Input ∧ cs = s.build := by
+  cases cs with
+  | nil => simp [toShp?] at h
+  | cons x rest =>
+    simp only [toShp?] at h
+    by_cases hx : x.k = .init
+    · simp only [hx, ↓reduceIte] at h
+      by_cases ht : rest.all isTailNode = true
+      · simp only [ht, ↓reduceIte, Option.some.injEq] at h
+        subst h
+        refine ⟨⟨hx, ?_, ?_, rfl, Fillers.nil, Fillers.nil, ?_, ?_, tailNodes_of_all ht⟩, ?_, ?_⟩
+        · intro y hy; simp at hy
+        · intro y hy; simp at hy
+        · intro lo F1 hl; simp at hl
+        · intro F2 u hu; simp at hu
+        · intro _; exact ⟨rfl, rfl⟩
+        · simp [Shp.build, optL, lowL, upL]
+      · simp [ht] at h
+    · simp only [hx, ↓reduceIte] at h
+      by_cases hl : x.k = .lpar
+      · simp only [hl, ↓reduceIte] at h
+        have e0 := split_fillers rest
+        cases hd : rest.dropWhile isFiller with
+        | nil => simp [hd] at h
+        | cons y r2 =>
+          simp only [hd] at h
+          rw [hd] at e0
+          by_cases hy : y.k = .low
+          · simp only [hy, ↓reduceIte] at h
+            have e2 := split_fillers r2
+            cases hd2 : r2.dropWhile isFiller with
+            | nil => simp [hd2] at h
+            | cons i r4 =>
+              simp only [hd2] at h
+              rw [hd2] at e2
+              by_cases hi : i.k = .init
+              · simp only [hi, ↓reduceIte] at h
+                obtain ⟨hw, hin, hb⟩ := afterInit_sound x hl _ (fillers_takeWhile rest) _
+                  (by intro lo F1 hh; simp at hh; obtain ⟨rfl, rfl⟩ := hh; exact ⟨hy, fillers_takeWhile r2⟩) i hi r4 s h
+                refine ⟨hw, hin, ?_⟩
+                rw [← hb]
+                conv => lhs; rw [e0, e2]
+                simp [lowL]
+              · simp [hi] at h
+          · simp only [hy, ↓reduceIte] at h
+            by_cases hi : y.k = .init
+            · simp only [hi, ↓reduceIte] at h
+              obtain ⟨hw, hin, hb⟩ := afterInit_sound x hl _ (fillers_takeWhile rest) none
+                (by intro lo F1 hh; simp at hh) y hi r2 s h
+              refine ⟨hw, hin, ?_⟩
+              rw [← hb]
+              conv => lhs; rw [e0]
+              simp [lowL]
+            · simp [hi] at h
+      · simp [hl] at h
+
+theorem shapeOK_sound (cs : List TNode) (h : shapeOK cs = true) : ItemShape cs := by
+  unfold shapeOK at h
+  cases hs : toShp? cs with
+  | none => simp [hs] at h
+  | some s =>
+    obtain ⟨hw, hin, hb⟩ := toShp?_sound cs s hs
+    exact ⟨s, hw, hin, hb⟩
+
+
+theorem recShapeOK_sound (r : List RNode) (h : recShapeOK r = true) : RecShape r := by
+  induction r with
+  | nil => intro cs hc; simp at hc
+  | cons x r ih =>
+    cases x with
+    | tok t =>
+      intro cs hc
+      simp at hc
+      exact ih (by simpa [recShapeOK] using h) cs hc
+    | item cs0 =>
+      simp only [recShapeOK, Bool.and_eq_true] at h
+      intro cs hc
+      simp at hc
+      rcases hc with rfl | hc
+      · exact shapeOK_sound _ h.1
+      · exact ih h.2 cs hc
 
 end Pharmpy.C04
